@@ -166,4 +166,138 @@ ITEMS = location_types() + budget_types() + error_types() + [
                     exists|rl: Location| r == #[trigger] elem_seed_result(seed, rest0, old(self).cfg, rl, rest0[0].spec_location()) })'''),
                   ('config_unchanged', 'final(self).cfg == old(self).cfg')],
          canaries=['C05:a_sequence_ends_exactly_at_its_end_event_which_is_left_for_the_caller']),
+    # ---- booleans (C06) ----
+    dict(src='src/parse_scalars.rs', path='fn parse_yaml11_bool', props=['C06', 'C01'],
+         rewrites=[(r's\.trim\(\)', 'str_trim(s)', 1, 'R8'), (r't\.eq_ignore_ascii_case\(("\w+")\)', r'pl_str_eq_ci(t, \1)', None, 'R8'),
+                   (r'Err\(format!\("invalid YAML 1\.1 bool: `\{\}`", s\)\)', 'Err(fmt_invalid_bool(s))', 1, 'R8')],
+         proofs=[dict(at='start', text='lemma_bool_literals();')],
+         ensures=[('C06:yaml11_boolean_table', 'match r { Ok(v) => sp_yaml11(spec_trim(s.spec_bytes())) == Some(v), Err(_) => sp_yaml11(spec_trim(s.spec_bytes())) is None }')],
+         canaries=['C06:yaml11_boolean_table']),
+    dict(src=D, path=YD + 'fn deserialize_bool', id='YamlDeserializer::deserialize_bool',
+        impl_header="impl<'de, 'e> YamlDeserializer<'de, 'e>", props=['C06', 'C05', 'C01'],
+        pre_rewrites=[(r"fn deserialize_bool<V: Visitor<'de>>\(mut self, visitor: V\) -> Result<V::Value, Self::Error>",
+                       'fn deserialize_bool(mut self, visitor: Vis) -> Result<VisVal, Error>', 1, 'R9')],
+        rewrites=[(r's\.trim\(\)', 'str_trim(s)', 1, 'R8'), (r't\.eq_ignore_ascii_case\(("\w+")\)', r'pl_str_eq_ci(t, \1)', None, 'R8'),
+                  (r'parse_yaml11_bool\(s\)\.map_err\(\|_e\| Error::InvalidScalar \{\s*ty: "boolean",\s*location,\s*\}\)\?',
+                   '(match parse_yaml11_bool(s) { Ok(__v) => __v, Err(_e) => { return Err(Error::InvalidScalar { ty: "boolean", location }); } })', 1, 'R18')],
+        proofs=[dict(at='start', ghost=True, text='let ghost rest0 = self.ev.rest();'),
+                dict(at='start', text='lemma_bool_literals();'),
+                dict(before='visitor.visit_bool(b)', label='C05:exactly_one_event_consumed_before_the_visitor_runs', text='assert(this.ev.rest() == rest0.skip(1));')],
+        ensures=[('C06:boolean_is_read_from_the_strict_or_the_yaml11_table_as_configured', '''match r {
+              Ok(val) => old(self.ev).rest().len() > 0 && match old(self.ev).rest()[0] {
+                    Ev::Scalar { value, .. } => ({ let t = spec_trim(encode_utf8(value@));
+                        match (if self.cfg.strict_booleans { sp_strict_bool(t) } else { sp_yaml11(t) }) {
+                            Some(b) => Ok::<VisVal, Error>(val) == vis_bool(visitor, b), None => false } }),
+                    _ => false },
+              Err(_) => true }''')],
+        canaries=['C06:boolean_is_read_from_the_strict_or_the_yaml11_table_as_configured']),
+    dict(src='src/parse_scalars.rs', path='fn leading_zero_decimal', props=['C06', 'C01'],
+         rewrites=[(r't\.trim\(\)', 'str_trim(t)', 1, 'R8'),
+                   (r"s\.strip_prefix\(\['\+', '-'\]\)\.unwrap_or\(s\)", '(match ty_str_strip_sign(s) { Some(__v) => __v, None => s })', 1, 'R8+R18'),
+                   (r"digits\.strip_prefix\('0'\)", "str_strip_prefix_char(digits, '0')", 1, 'R8'),
+                   (r'rest\.chars\(\)\.next\(\)', 'ty_str_first_char(rest)', 1, 'R8')],
+         ensures=[('C06:redundant_leading_zero_is_a_zero_followed_by_anything_but_a_radix_letter', 'r == sp_leading_zero_decimal(spec_trim(t.spec_bytes()))')],
+         canaries=['C06:redundant_leading_zero_is_a_zero_followed_by_anything_but_a_radix_letter']),
+    _callee([x for x in _evu.ITEMS if x.get('path') == 'impl YamlDeserializer/fn take_scalar_event'][0]),
+    _callee([x for x in _sc.ITEMS if x.get('path') == 'impl SfTag/fn can_parse_into_string'][0]),
+    dict(src=D, path='impl YamlDeserializer/fn take_string_scalar', props=['C06', 'C05', 'C01'],
+         rewrites=[(r'decode_base64_yaml\(&value\)\.map_err\(\|err\| err\.with_location\(location\)\)\?',
+                    '(match decode_base64_yaml(value.as_str()) { Ok(__v) => __v, Err(err) => { return Err(err.with_location(location)); } })', 1, 'R18'),
+                   (r'String::from_utf8\(data\)\.map_err\(\|_e\| Error::BinaryNotUtf8 \{ location \}\)\?',
+                    '(match ty_string_from_utf8(data) { Ok(__v) => __v, Err(_e) => { return Err(Error::BinaryNotUtf8 { location }); } })', 1, 'R18')],
+         ensures=[('C06:string_is_the_scalar_text_or_the_strict_base64_payload_and_other_tags_are_refused', '''match r {
+                Ok(text) => old(self).ev.rest().len() > 0 && final(self).ev.rest() == old(self).ev.rest().skip(1) && match old(self).ev.rest()[0] {
+                    Ev::Scalar { value, tag, .. } =>
+                        if tag == SfTag::Binary && !old(self).cfg.ignore_binary_tag_for_string {
+                            b64_decode(b64_strip_ws(encode_utf8(value@))) == Some(encode_utf8(text@))
+                        } else { sp_string_tag_ok(tag, old(self).cfg.ignore_binary_tag_for_string) && text@ == value@ },
+                    _ => false },
+                Err(_) => true }'''),
+                  ('config_kept', 'final(self).cfg == old(self).cfg && final(self).in_key == old(self).in_key')],
+         canaries=['C06:string_is_the_scalar_text_or_the_strict_base64_payload_and_other_tags_are_refused']),
+    dict(src=D, path=YD + 'fn deserialize_any', id='YamlDeserializer::deserialize_any',
+        impl_header="impl<'de, 'e> YamlDeserializer<'de, 'e>", props=['C06', 'C05', 'C01'],
+        pre_rewrites=[(r"fn deserialize_any<V: Visitor<'de>>\(mut self, visitor: V\) -> Result<V::Value, Self::Error>",
+                       'fn deserialize_any(mut self, visitor: Vis) -> Result<VisVal, Error>', 1, 'R9')],
+        rewrites=[(r'tag == &SfTag::(\w+)', r'*tag == SfTag::\1', None, 'R15'),
+                  (r'scalar_is_nullish\(value, style\)', 'scalar_is_nullish(value.as_ref(), style)', 1, 'R15'),
+                  (r'match cow \{\s*Cow::Borrowed\(b\) => visitor\.visit_borrowed_str\(b\),\s*Cow::Owned\(s\) => visitor\.visit_string\(s\),\s*\}', 'ty_visit_cowstr(visitor, cow)', 1, 'R8'),
+                  (r'let tt = s\.trim\(\);', 'let tt = str_trim(s.as_str());', 1, 'R8+R15'),
+                  (r'let t = s\.trim\(\);', 'let t = str_trim(s.as_str());', 1, 'R8+R15'),
+                  (r'tt\.eq_ignore_ascii_case\(("\w+")\)', r'pl_str_eq_ci(tt, \1)', None, 'R8'),
+                  (r'parse_yaml11_bool\(&s\)', 'parse_yaml11_bool(s.as_str())', 1, 'R15'),
+                  (r"t\.starts_with\('-'\)", "pl_str_starts_with_char(t, '-')", 1, 'R8'),
+                  (r'parse_int_signed::<i64>\(', 'parse_int_signed_i64(', None, 'R9'),
+                  (r'parse_int_unsigned::<u64>\(', 'parse_int_unsigned_u64(', None, 'R9'),
+                  (r'parse_yaml12_float::<f64>\(&s, location, tag, this\.cfg\.angle_conversions\)', 'ty_parse_float_f64(s.as_str(), location, tag, this.cfg.angle_conversions)', 1, 'R8'),
+                  (r'v\.is_finite\(\)', 'ty_f64_is_finite(v)', 1, 'R8'), (r'v\.is_nan\(\)', 'ty_f64_is_nan(v)', 1, 'R8'), (r'v\.is_sign_negative\(\)', 'ty_f64_is_sign_negative(v)', 1, 'R8'),
+                  (r'("-?\.(?:nan|inf)")\.to_string\(\)', r'str_to_owned(\1)', None, 'R8')],
+        proofs=[dict(at='start', ghost=True, text='let ghost rest0 = self.ev.rest();'),
+                dict(at='start', text='lemma_bool_literals();')],
+        ensures=[
+            ('C06:untyped_null_forms_become_unit', '''({ let rest0 = old(self.ev).rest();
+                r is Ok && rest0.len() > 0 && rest0[0] is Scalar && (rest0[0]->Scalar_tag == SfTag::Null || unit_scalar(rest0[0])) ==> r == vis_unit(visitor) })'''),
+            ('C06:untyped_quoted_block_or_string_tagged_scalars_stay_strings', '''({ let rest0 = old(self.ev).rest();
+                r is Ok && rest0.len() > 0 && rest0[0] is Scalar ==> ({
+                    let tag = rest0[0]->Scalar_tag; let style = rest0[0]->Scalar_style; let value = rest0[0]->Scalar_value;
+                    tag != SfTag::Null && !unit_scalar(rest0[0]) && !(tag is Binary && !self.cfg.ignore_binary_tag_for_string) && (!(style is Plain) || tag is String || tag is NonSpecific || tag is Binary)
+                        ==> r == vis_str(visitor, value@) }) })'''),
+            ('C06:untyped_plain_scalars_are_inferred_as_bool_then_integer_then_float_then_string', '''({ let rest0 = old(self.ev).rest();
+                r is Ok && rest0.len() > 0 && rest0[0] is Scalar ==> ({
+                    let tag = rest0[0]->Scalar_tag; let style = rest0[0]->Scalar_style; let value = rest0[0]->Scalar_value;
+                    style is Plain && (tag is None || tag is Other) && !unit_scalar(rest0[0]) ==> r == sp_infer_plain(visitor, value@, tag, self.cfg) }) })'''),
+            ('C05:a_dangling_container_end_or_a_consumed_slot_is_an_error', '''({ let rest0 = old(self.ev).rest();
+                rest0.len() > 0 && (rest0[0] is SeqEnd || rest0[0] is MapEnd || rest0[0] is Taken) ==> r is Err })'''),
+            ('C06:nothing_left_is_unit', 'r is Ok && old(self.ev).rest().len() == 0 ==> r == vis_unit(visitor)'),
+        ],
+        canaries=['C06:untyped_plain_scalars_are_inferred_as_bool_then_integer_then_float_then_string', 'C06:untyped_quoted_block_or_string_tagged_scalars_stay_strings']),
+    dict(src='src/de_error.rs', path='impl Error/fn quoting_required', trusted=True, props=[], ensures=[('kind', 'r is QuotingRequired')]),
+    dict(src='src/parse_scalars.rs', path='fn maybe_not_string', props=['C06', 'C01'],
+         rewrites=[(r'style == &ScalarStyle::Plain', '*style == ScalarStyle::Plain', 1, 'R15'),
+                   (r'parse_yaml12_float::<f64>\(s, location, SfTag::None, false\)', 'ty_parse_float_f64(s, location, SfTag::None, false)', 1, 'R8'),
+                   (r'parse_int_signed::<i128>\(s, "i128", location, false\)', 'parse_int_signed_i128(s, "i128", location, false)', 1, 'R9')],
+         ensures=[('C06:only_plain_scalars_can_look_like_numbers_booleans_or_null', 'r == (*style is Plain && sp_looks_non_string(s.spec_bytes()))')],
+         canaries=['C06:only_plain_scalars_can_look_like_numbers_booleans_or_null']),
+    dict(src=D, path=YD + 'fn deserialize_string', id='YamlDeserializer::deserialize_string',
+        impl_header="impl<'de, 'e> YamlDeserializer<'de, 'e>", props=['C06', 'C05', 'C01'],
+        pre_rewrites=[(r"fn deserialize_string<V: Visitor<'de>>\(mut self, visitor: V\) -> Result<V::Value, Self::Error>",
+                       'fn deserialize_string(mut self, visitor: Vis) -> Result<VisVal, Error>', 1, 'R9')],
+        rewrites=[(r'tag == &SfTag::(\w+)', r'*tag == SfTag::\1', None, 'R15'), (r'tag != &SfTag::(\w+)', r'*tag != SfTag::\1', None, 'R15'),
+                  (r'scalar_is_nullish\(value, style\)', 'scalar_is_nullish(value.as_ref(), style)', None, 'R15'),
+                  (r'maybe_not_string\(value, style\)', 'maybe_not_string(value.as_ref(), style)', None, 'R15'),
+                  (r'Error::quoting_required\(&value\)', 'Error::quoting_required(value.as_str())', None, 'R15'),
+                  (r'let location = this\.ev\.peek\(\)\?\.unwrap\(\)\.location\(\);', 'let location = (match this.ev.peek()? { Some(__e) => __e.location(), None => Location::UNKNOWN });', None, 'R18'),
+                  (r'match cow \{\s*Cow::Borrowed\(b\) => visitor\.visit_borrowed_str\(b\),\s*Cow::Owned\(s\) => visitor\.visit_string\(s\),\s*\}', 'ty_visit_cowstr(visitor, cow)', 1, 'R8')],
+        ensures=[
+            ('C06:a_string_target_gets_the_scalar_text_or_the_base64_payload', '''({ let rest0 = old(self.ev).rest();
+                r is Ok && rest0.len() > 0 && rest0[0] is Scalar ==> ({
+                    let tag = rest0[0]->Scalar_tag; let value = rest0[0]->Scalar_value;
+                    if tag is Binary && !self.cfg.ignore_binary_tag_for_string {
+                        exists|t: Seq<char>| b64_decode(b64_strip_ws(encode_utf8(value@))) == Some(encode_utf8(t)) && r == #[trigger] vis_str(visitor, t)
+                    } else { sp_string_tag_ok(tag, self.cfg.ignore_binary_tag_for_string) && r == vis_str(visitor, value@) } }) })'''),
+            ('C06:null_forms_and_in_no_schema_mode_number_like_plain_text_are_refused_unless_tagged_str', '''({ let rest0 = old(self.ev).rest();
+                r is Ok && rest0.len() > 0 && rest0[0] is Scalar && !(rest0[0]->Scalar_tag is String) ==>
+                    !(rest0[0]->Scalar_tag is Null) && !unit_scalar(rest0[0])
+                    && !(self.cfg.no_schema && rest0[0]->Scalar_style is Plain && sp_looks_non_string(encode_utf8(rest0[0]->Scalar_value@))) })'''),
+        ],
+        proofs=[dict(at='start', ghost=True, text='let ghost rest0 = self.ev.rest();'),
+                dict(before='return Err(Error::NullIntoString { location });', label='C06:only_a_null_tag_or_a_plain_null_like_scalar_is_refused_as_null',
+                     text='assert(rest0.len() > 0 && rest0[0] is Scalar && (rest0[0]->Scalar_tag is Null || unit_scalar(rest0[0])));'),
+                dict(before='return Err(Error::quoting_required(value.as_str()).with_location(location));', label='C06:only_plain_number_like_text_is_asked_to_be_quoted',
+                     text='assert(rest0.len() > 0 && rest0[0] is Scalar && rest0[0]->Scalar_style is Plain && this.cfg.no_schema);')],
+        canaries=['C06:a_string_target_gets_the_scalar_text_or_the_base64_payload', 'C06:null_forms_and_in_no_schema_mode_number_like_plain_text_are_refused_unless_tagged_str']),
+    dict(src=D, path=YD + 'fn deserialize_f64', id='YamlDeserializer::deserialize_f64',
+        impl_header="impl<'de, 'e> YamlDeserializer<'de, 'e>", props=['C06', 'C19', 'C05', 'C01'],
+        pre_rewrites=[(r"fn deserialize_f64<V: Visitor<'de>>\(mut self, visitor: V\) -> Result<V::Value, Self::Error>",
+                       'fn deserialize_f64(mut self, visitor: Vis) -> Result<VisVal, Error>', 1, 'R9')],
+        rewrites=[(r'let v: f64 = parse_yaml12_float\(', 'let v: f64 = ty_parse_float_f64(', 1, 'R9')],
+        proofs=[dict(at='start', ghost=True, text='let ghost rest0 = self.ev.rest();'),
+                dict(before='visitor.visit_f64(v)', label='C05:exactly_one_event_consumed_before_the_visitor_runs', text='assert(this.ev.rest() == rest0.skip(1));')],
+        ensures=[('C06:float_is_parsed_from_exactly_the_scalar_text_with_its_tag_and_the_angle_option_as_configured', '''match r {
+              Ok(val) => old(self.ev).rest().len() > 0 && match old(self.ev).rest()[0] {
+                    Ev::Scalar { value, tag, .. } => match sp_float(encode_utf8(value@), tag, self.cfg.angle_conversions) {
+                        Some(x) => Ok::<VisVal, Error>(val) == vis_f64(visitor, x), None => false },
+                    _ => false },
+              Err(_) => true }''')],
+        canaries=['C06:float_is_parsed_from_exactly_the_scalar_text_with_its_tag_and_the_angle_option_as_configured']),
 ]
